@@ -115,6 +115,7 @@
        last.  They differ only if inputs disagree on `opt` for one field, which no
        generator produces (zapx assumes it cannot happen).
 -/
+import ZapModel.Writer
 import ZapModel.Types
 import ZapModel.Codec
 import ZapModel.Gen.Pure
@@ -425,6 +426,10 @@ def decLocs (b : ByteArray) (doc cur lim : Nat) : R (List MLoc × Nat) := do
   if p ≠ fin then throw s!"locations of doc {doc} do not end at their declared size"
   return (out.toList, fin)
 
+def firstByteDiff : List Nat → List Nat → Nat → Nat
+  | x :: xs, y :: ys, i => if x = y then firstByteDiff xs ys (i + 1) else i
+  | _, _, i => i
+
 def decPostings (c : Ctx) (off : Nat) : R (List Entry) := do
   let b := c.b
   let (fo, p) ← uv b off
@@ -463,7 +468,18 @@ def decPostings (c : Ctx) (off : Nat) : R (List Entry) := do
       | [] => throw s!"postings record {off}: missing locations for doc {f.doc}"
     else
       out := out.push { doc := f.doc, freq := f.freq, norm := f.norm, locs := [] }
-  return out.toList
+  -- writer model tie: the bytes of the two streams and of the record are exactly what
+  -- `Writer.writePostings` (the model of the Go writers the round-trip theorems are about)
+  -- emits for the decoded entries at this position of the file
+  let es := out.toList
+  let roaring ← slice b p rl
+  let w := Writer.writePostings fo cs (c.numDocs - 1) es roaring
+  let got ← slice b fo (p + rl - fo)
+  if w.postingsOffset ≠ off ∨ w.tfOffset ≠ fo ∨ w.locOffset ≠ lo then
+    throw s!"postings record {off}: the writer model puts the record at {w.postingsOffset} with streams at {w.tfOffset}/{w.locOffset}, the file has {off} with {fo}/{lo}"
+  if w.bytes ≠ got then
+    throw s!"postings record {off}: the bytes [{fo},{p + rl}) differ from what the writer model emits for the decoded entries (first difference at +{(firstByteDiff w.bytes got 0)})"
+  return es
 
 def decDict (c : Ctx) (dictLoc : Nat) : R (List (Bytes × PostRep)) := do
   let (vl, p) ← uv c.b dictLoc
@@ -540,11 +556,29 @@ def decStoredDoc (c : Ctx) (doc off : Nat) : R StoredDoc := do
     let vals ← go (groups.length + 1) groups #[]
     return { id := id, vals := vals }
 
+/-- `decStoredDoc` plus the writer model tie: with the compressed block taken from the file,
+    `Writer.encodeStoredDoc` reproduces the document's bytes (both lengths, meta, id), and the
+    uncompressed block is exactly the concatenation of the values. -/
+def decStoredDocTied (c : Ctx) (doc off : Nat) : R StoredDoc := do
+  let sd ← decStoredDoc c doc off
+  let b := c.b
+  let (ml, p) ← uv b off
+  let (dl, p) ← uv b p
+  let idLen := sd.id.length
+  let comp ← slice b (p + ml + idLen) (dl - idLen)
+  let got ← slice b off (p + ml + dl - off)
+  if Writer.encodeStoredDoc (fun _ => comp) sd ≠ got then
+    throw s!"stored doc {doc}: the bytes [{off},{p + ml + dl}) differ from what the writer model emits for the decoded document"
+  let rawB ← snappyFast b (p + ml + idLen) (p + ml + dl)
+  if Writer.storedData sd.vals ≠ ofBA rawB then
+    throw s!"stored doc {doc}: the uncompressed block is not the concatenation of the values"
+  return sd
+
 def decStored (c : Ctx) (sio : Nat) : R (List StoredDoc) := do
   let mut out : Array StoredDoc := #[]
   for i in [0:c.numDocs] do
     let off ← be c.b (sio + 8 * i) 8
-    let d ← decStoredDoc c i off
+    let d ← decStoredDocTied c i off
     out := out.push d
   return out.toList
 
